@@ -158,6 +158,13 @@ def eval_namespace():
         "pyramid",
     ):
         ns[c] = getattr(ufl, c)
+    import ufl.functionspace
+
+    for k in ufl.__all__:
+        ns.setdefault(k, getattr(ufl, k))
+    for k, v in vars(ufl.functionspace).items():
+        if isinstance(v, type):
+            ns.setdefault(k, v)
     ns.update(Elem=Elem, MixedElem=MixedElem, SymElem=SymElem)
     ns["ufl"] = ufl
     return ns
